@@ -129,14 +129,15 @@ impl AsyncRead for ChanReader {
 
 //------------ in-memory listener ---------------------------------------------
 
-thread_local! {
-    /// Readers of connections handed to the accept loop but not yet to the
-    /// acceptor. The acceptor receives an opaque `impl TcpStreamWrapper`, so
-    /// the reader travels here, keyed by the connection's remote address.
-    /// Thread local: use a current-thread runtime.
-    static PENDING: std::cell::RefCell<HashMap<SocketAddr, ChanReader>> =
-        std::cell::RefCell::new(HashMap::new());
-}
+/// Readers of connections handed to the accept loop but not yet to the
+/// acceptor. The acceptor receives an opaque `impl TcpStreamWrapper`, so
+/// the reader travels here, keyed by the connection's remote address.
+/// Process wide (not thread local): a router task that ends drops its gate
+/// clones, `Gate::drop` uses `block_in_place`, so the runtime has to be a
+/// multi-thread one (one worker is enough) and its worker thread changes.
+/// Use distinct remote addresses in Worlds that live at the same time.
+static PENDING: StdMutex<Option<HashMap<SocketAddr, ChanReader>>> =
+    StdMutex::new(None);
 
 pub struct ChanStream;
 
@@ -189,7 +190,10 @@ impl ConfigAcceptor for ChanAcceptor {
         let router_states = router_states.clone();
         let router_info = router_info.clone();
         let reader = PENDING
-            .with(|p| p.borrow_mut().remove(&client_addr))
+            .lock()
+            .unwrap()
+            .get_or_insert_with(HashMap::new)
+            .remove(&client_addr)
             .expect("verif: no pending reader for this address");
         let shared = reader.shared.clone();
 
@@ -240,17 +244,32 @@ pub struct World {
     pub gate_id: uuid::Uuid,
     accept_tx: mpsc::UnboundedSender<SocketAddr>,
     pub runner: tokio::task::JoinHandle<Result<(), Terminated>>,
+    /// (slots in `updates`, slots in `suspended`) of the unit's gate.
+    pub gate_slots: Box<dyn Fn() -> (usize, usize) + Send + Sync>,
 }
 
 impl World {
-    /// Must be called inside a current-thread tokio runtime. `linked`: a
+    /// Must be called inside a tokio runtime. `linked`: a
     /// downstream (direct update) link is connected to the unit's gate.
     pub async fn new(
         linked: bool,
         router_id_template: Option<String>,
         tracing_mode: TracingMode,
     ) -> World {
-        let (gate, mut agent) = Gate::new(0);
+        Self::with_queue_len(0, linked, router_id_template, tracing_mode)
+            .await
+    }
+
+    /// `queue_len`: the update queue length of the unit's gate
+    /// (`Gate::new(queue_len)`; queue links need a length above zero).
+    pub async fn with_queue_len(
+        queue_len: usize,
+        linked: bool,
+        router_id_template: Option<String>,
+        tracing_mode: TracingMode,
+    ) -> World {
+        let (gate, mut agent) = Gate::new(queue_len);
+        let gate_slots = crate::comms::verif_hooks::gate_slots_probe(&gate);
         let gate_id = gate.id();
         let sink = Arc::new(Sink::default());
         let register = Arc::new(ingress::Register::new());
@@ -328,6 +347,7 @@ impl World {
             gate_id,
             accept_tx,
             runner,
+            gate_slots,
         }
     }
 
@@ -335,15 +355,13 @@ impl World {
     /// the accept loop has accepted it and its handler waits for input.
     pub async fn connect(&self, addr: SocketAddr) -> Conn {
         let shared = Arc::new(ConnShared::default());
-        PENDING.with(|p| {
-            p.borrow_mut().insert(
-                addr,
-                ChanReader {
-                    shared: shared.clone(),
-                    off: 0,
-                },
-            )
-        });
+        PENDING.lock().unwrap().get_or_insert_with(HashMap::new).insert(
+            addr,
+            ChanReader {
+                shared: shared.clone(),
+                off: 0,
+            },
+        );
         let conn = Conn { shared, addr };
         let _ = self.accept_tx.send(addr);
         conn.settled().await;
